@@ -310,6 +310,17 @@ type vCSWaiter struct {
 // csEnter is installed as jsonrpc2.VerifEnter: the goroutine parks until the scheduler releases it.
 func (r *vRun) csEnter(_ *jsonrpc2.Connection, fn string) {
 	r.csMu.Lock()
+	// a scripted hold: the n-th critical section entered from the named function parks until "releasecs"
+	if r.holdFn != "" && strings.HasSuffix(fn, r.holdFn) {
+		r.holdSeen++
+		if r.holdSeen == r.holdNth {
+			ch := make(chan struct{})
+			r.holdCh = ch
+			r.csMu.Unlock()
+			<-ch
+			r.csMu.Lock()
+		}
+	}
 	if !r.csOn {
 		r.csMu.Unlock()
 		return
@@ -360,6 +371,10 @@ type vRun struct {
 	mu    sync.Mutex
 	calls map[string]*vCallState
 	rel   map[string]chan struct{} // handler release gates by request tag
+	holdFn   string
+	holdNth  int
+	holdSeen int
+	holdCh   chan struct{}
 	csOn    bool
 	csMu    sync.Mutex
 	csWait  []*vCSWaiter
@@ -799,6 +814,21 @@ func (r *vRun) step(st []any) {
 			}
 			r.log.emit("notify.end", "n", n, "err", err != nil)
 		}()
+	case "holdcs":
+		n, _ := strconv.Atoi(arg(2))
+		r.csMu.Lock()
+		r.holdFn, r.holdNth, r.holdSeen = arg(1), n, 0
+		r.csMu.Unlock()
+	case "releasecs":
+		r.csMu.Lock()
+		ch := r.holdCh
+		r.holdFn, r.holdCh = "", nil
+		r.csMu.Unlock()
+		if ch != nil {
+			close(ch)
+		} else {
+			applied = false
+		}
 	case "notifybad":
 		// an outgoing notification whose parameters cannot be encoded (NaN): it must fail without leaving anything behind
 		n := arg(1)
@@ -895,6 +925,11 @@ func (r *vRun) run() {
 	// from here on critical sections run freely again
 	r.csMu.Lock()
 	r.csOn = false
+	if r.holdCh != nil {
+		close(r.holdCh)
+		r.holdCh = nil
+	}
+	r.holdFn = ""
 	r.csMu.Unlock()
 	r.settle(false)
 	// drain stage 1: discharge what the environment owes, nothing else
@@ -998,10 +1033,7 @@ func vRunScenario(t *testing.T, l *vLog, sc *vScenario) {
 			l.mu.Unlock()
 			r := &vRun{t: t, sc: sc, log: l, calls: map[string]*vCallState{}, rel: map[string]chan struct{}{}, reqID: map[string]int64{}, answered: map[string]bool{}}
 			r.csRnd = rand.New(rand.NewPCG(sc.CSSeed, 77))
-			jsonrpc2.VerifEnter = nil
-			if sc.CS {
-				jsonrpc2.VerifEnter = r.csEnter
-			}
+			jsonrpc2.VerifEnter = r.csEnter
 			if os.Getenv("VERIF_CS") != "0" {
 				jsonrpc2.VerifSnap = func(c *jsonrpc2.Connection, fn string, s jsonrpc2.VerifSnapshot) {
 					l.emit("cs", "fn", fn, "s", s)
